@@ -568,6 +568,12 @@ def fam_general(params, tier, acc):
                             acc.nontrivial += 1
                         run_case(case, acc, tier,
                                  bound if n <= 2 else 0)
+                        if netk == "w" and cs.get("same_chip"):
+                            # orders derived from sets of vertices follow
+                            # the vertices' hashes: the same problem with
+                            # two other kinds of vertex object
+                            for vk in ("tuple", "fmt"):
+                                run_case(dict(case, vkind=vk), acc, tier, 0)
         if i % 20 == 0:
             acc.sample(dict(fam="general", placer=placer, machine=cfg))
 
